@@ -738,6 +738,8 @@ def parse_template(text):
                 items.append(('enumval', parse_attrs(rest)))
             elif word == 'typedef':
                 items.append(('typedef', parse_attrs(rest)))
+            elif word == 'tablevalue':
+                items.append(('tablevalue', parse_attrs(rest)))
             elif word == 'expect':
                 items.append(('expect', parse_attrs(rest)))
             elif word == 'restartorder':
@@ -1151,6 +1153,29 @@ class Extractor:
         self.report.setdefault('defines', []).append(dict(name=a['name'], file=a['file'], line=line_of(src.text, ms[0].start()), text=body.strip()))
         return '#define %s%s' % (a.get('as', a['name']), body)
 
+    def tablevalue(self, a):
+        """//@@ tablevalue file= function= keys=a,b,c prefix=P [arg=N]: for an if-chain 'name == "key") { return T(v0, v1, ...);'
+        emits '#define P<key> (<argument N of the constructor call>)' for each key (default: argument 0)"""
+        src = self.src(a['file'])
+        defs = find_definitions(src, a['function'], a.get('class'), 'method' if 'class' in a else 'free')
+        if len(defs) != 1:
+            raise ExtractionError('tablevalue: function %s found %d times' % (a['function'], len(defs)))
+        body = src.text[defs[0]['body_lb']:defs[0]['body_rb'] + 1]
+        n = int(a.get('arg', 0))
+        out = []
+        for key in a['keys'].split(','):
+            ms = list(re.finditer(r'==\s*"' + re.escape(key) + r'"\s*\)\s*\{\s*return\s+\w+\s*\(', body))
+            if len(ms) != 1:
+                raise ExtractionError('tablevalue: key %r found %d times in %s' % (key, len(ms), a['function']))
+            lp = ms[0].end() - 1
+            rp = match_bracket(body, lp)
+            args = split_top(body[lp + 1:rp])
+            if n >= len(args):
+                raise ExtractionError('tablevalue: key %r has only %d arguments' % (key, len(args)))
+            out.append('#define %s%s (%s)' % (a.get('prefix', ''), key, re.sub(r'\s+', ' ', args[n].strip())))
+        self.report.setdefault('tablevalues', []).append(dict(function=a['function'], keys=a['keys'], arg=n))
+        return '\n'.join(out)
+
     def typedef(self, a):
         """//@@ typedef file= name= : 'typedef union|struct { ... } name;' copied verbatim (comments stripped)"""
         src = self.src(a['file'])
@@ -1451,6 +1476,8 @@ class Extractor:
                 out.append(self.enumval(it))
             elif kind == 'typedef':
                 out.append(self.typedef(it))
+            elif kind == 'tablevalue':
+                out.append(self.tablevalue(it))
             elif kind == 'expect':
                 out.append(self.expect(it))
             elif kind == 'restartorder':
